@@ -1063,8 +1063,29 @@ theorem dashedName_eq_translate (n : Tok) : dashedName n = translateUnderscores 
     simp only [hu', Bool.false_eq_true, if_false]
     exact (translate_id (contains_false_not_mem hu')).symm
 
-theorem dashedName_normal {n : Tok} (h : allUnderscores n = false) : NormalName (dashedName n) :=
-  ⟨dashedName_no_underscore n, dashedName_ne_nil h⟩
+theorem dashedName_normal {n : Tok} (h : dashedName n ≠ []) : NormalName (dashedName n) :=
+  ⟨dashedName_no_underscore n, h⟩
+
+/-- the refusal test of `arg_opts` is exactly "the CLI name is empty" for a non-empty parameter name -/
+theorem blankName_true_iff (p : Param) :
+    blankName p = true ↔ (hasUnderscore p.name = true ∧ dashedName p.name = []) := by
+  unfold blankName dashedName
+  cases hu : hasUnderscore p.name <;> simp [List.isEmpty_iff]
+
+theorem blank_false_of_ne_nil {p : Param} (h : dashedName p.name ≠ []) : blankName p = false := by
+  cases hb : blankName p with
+  | false => rfl
+  | true => exact absurd ((blankName_true_iff p).1 hb).2 h
+
+theorem ne_nil_of_blank_false {p : Param} (hne : p.name ≠ []) (h : blankName p = false) : dashedName p.name ≠ [] := by
+  intro hd
+  by_cases hu : hasUnderscore p.name = true
+  · have := (blankName_true_iff p).2 ⟨hu, hd⟩
+    rw [h] at this; cases this
+  · have hu' : hasUnderscore p.name = false := by simpa using hu
+    unfold dashedName at hd
+    simp only [hu', Bool.false_eq_true, if_false] at hd
+    exact hne hd
 
 theorem short_normal {x : Tok} (h : isShortName x) : NormalName x := by
   rcases h with ⟨ch, rfl, ha⟩
@@ -1074,7 +1095,7 @@ theorem short_normal {x : Tok} (h : isShortName x) : NormalName x := by
   exact alnum_ne_underscore ha this.symm
 
 theorem argOpts_normalSpec {o : TaskOpts} {pos : List Tok} {p : Param} {t : List Tok}
-    (h : allUnderscores p.name = false) : NormalSpec (argOpts o pos p t) := by
+    (h : dashedName p.name ≠ []) : NormalSpec (argOpts o pos p t) := by
   rw [NormalSpec, argOpts_names]
   have hl := pickShort_length o.autoShort (dashedName p.name) t
   match hh : pickShort o.autoShort (dashedName p.name) t, hl with
@@ -1164,9 +1185,10 @@ theorem argList_flags_nodup_dashed {o : TaskOpts} {ps : List Param}
   exact nodup_of_map_nodup toFlag h2
 
 theorem mkCtx_ok_iff {nm : Tok} {o : TaskOpts} {ps : List Param} {c : Ctx} :
-    mkCtx nm o ps = .ok c ↔ helpOK o ps = true ∧ Ctx.ofSpecsChecked (some nm) [] (argList o ps) = .ok c := by
+    mkCtx nm o ps = .ok c ↔ ps.any blankName = false ∧ helpOK o ps = true ∧
+      Ctx.ofSpecsChecked (some nm) [] (argList o ps) = .ok c := by
   unfold mkCtx getArguments
-  cases h : helpOK o ps <;> simp
+  cases hb : ps.any blankName <;> cases h : helpOK o ps <;> simp
 
 /-! ## the flag table maps every flag to the index of its own argument -/
 
